@@ -166,14 +166,14 @@ class Builder:
         f = self.submit(binp, [cxx] + ld + objs + ['-lgmp', '-lmpfr', '-lz', '-lpthread', '-ldl', '-o', '@OUT@'], deps=futs)
         return f, binp
 
-    def prune(self, keep=3):
+    def prune(self, keep=6):
         bd = os.path.join(CACHE, 'build')
         try:
             ds = sorted([os.path.join(bd, d) for d in os.listdir(bd)], key=os.path.getmtime, reverse=True)
         except OSError:
             return
         for d in ds[keep:]:
-            if d != self.root:
+            if d != self.root and time.time() - os.path.getmtime(d) > 3 * 3600:
                 shutil.rmtree(d, ignore_errors=True)
         try:
             os.utime(self.root)
